@@ -86,7 +86,12 @@ func wtWrite(c *wt.Conn, p wtPath, m wtMsg) error {
 	}
 	switch p.api {
 	case "WriteMessage":
-		return c.WriteMessage(mt, m.Data)
+		tmp := append([]byte(nil), m.Data...)
+		err := c.WriteMessage(mt, tmp)
+		for i := range tmp {
+			tmp[i] = 0xEE
+		}
+		return err
 	case "Prepared":
 		pm, err := wt.NewPreparedMessage(mt, m.Data)
 		if err != nil {
@@ -101,13 +106,23 @@ func wtWrite(c *wt.Conn, p wtPath, m wtMsg) error {
 	switch p.api {
 	case "Write", "WriteString":
 		data := m.Data
+		// one scratch buffer for every chunk, overwritten as soon as Write has returned (what
+		// io.CopyBuffer does): the writer may not keep the caller's slice
+		scratch := make([]byte, len(data))
+		if p.chunk > 0 && p.chunk < len(data) {
+			scratch = scratch[:p.chunk]
+		}
 		for first := true; first || len(data) > 0; first = false {
 			n := len(data)
 			if p.chunk > 0 && p.chunk < n {
 				n = p.chunk
 			}
 			if p.api == "Write" {
-				_, err = w.Write(data[:n])
+				copy(scratch, data[:n])
+				_, err = w.Write(scratch[:n])
+				for i := range scratch {
+					scratch[i] = 0xEE
+				}
 			} else {
 				_, err = w.(io.StringWriter).WriteString(string(data[:n]))
 			}
@@ -131,6 +146,19 @@ func newWriterConn(cfg wtWriterCfg, st *fakeStream) *wt.Conn {
 	}
 	return wt.NewConn(nil, st, cfg.server, 0, cfg.wb, pool, nil, nil)
 }
+
+// lifoPool is a deterministic BufferPool: Get returns the value put last.
+type lifoPool struct{ items []any }
+
+func (p *lifoPool) Get() any {
+	if n := len(p.items); n > 0 {
+		v := p.items[n-1]
+		p.items = p.items[:n-1]
+		return v
+	}
+	return nil
+}
+func (p *lifoPool) Put(v any) { p.items = append(p.items, v) }
 
 type wtReadMode struct {
 	rb    int    // read buffer size argument
@@ -474,6 +502,137 @@ func init() {
 			c.Note("all sequences of 2 (thorough 3) messages over 8 boundary lengths x both kinds with rotating write paths on one connection, every writer configuration")
 		})
 	}
+	// two connections sharing one buffer pool: while the stream of the first is still inside Write (a slow
+	// stream: the bytes are consumed when the call completes), the second writes a message of its own
+	for _, prop := range []string{"C13", "C14"} {
+		prop := prop
+		register(prop, "shared-pool", false, func(c *Ctx) {
+			var distinct, n int64
+			paths := []wtPath{{api: "WriteMessage"}, {api: "Write"}, {api: "Write", chunk: 7}, {api: "ReadFrom"}, {api: "WriteString"}}
+			for _, server := range []bool{true, false} {
+				for _, wb := range []int{0, 16} {
+					w := wb
+					if w == 0 {
+						w = 4096
+					}
+					lens := []int{1, 20, 125, 126, w, w + 10, 2*(w+9) + 1}
+					for _, la := range lens {
+						for _, lb := range lens {
+							for pi, pa := range paths {
+								pb := paths[(pi+1)%len(paths)]
+								for _, pbb := range []wtPath{pa, pb} {
+									ma, mb := wtMsg{false, wtPayload(la, false)}, wtMsg{true, wtPayload(lb, true)}
+									id := fmt.Sprintf("shared pool server=%v wb=%d | A text:%d via %s | B binary:%d via %s during A's stream write", server, wb, la, pa, lb, pbb)
+									distinct++
+									pbb := pbb
+									c.Case(id, func() []string {
+										pool := &lifoPool{}
+										st1, st2 := newFakeStream(nil), newFakeStream(nil)
+										c1 := wt.NewConn(nil, st1, server, 0, wb, pool, nil, nil)
+										c2 := wt.NewConn(nil, st2, server, 0, wb, pool, nil, nil)
+										var errB error
+										fired := false
+										st1.onWrite = func(int) {
+											if fired {
+												return
+											}
+											fired = true
+											errB = wtWrite(c2, pbb, mb)
+										}
+										if err := wtWrite(c1, pa, ma); err != nil || errB != nil {
+											return []string{fmt.Sprintf("write-error[shared-pool server=%v]: A: %v B: %v (%s)", server, err, errB, id)}
+										}
+										// then each writes once more, one after the other
+										if err := wtWrite(c1, pa, mb); err != nil {
+											return []string{fmt.Sprintf("write-error[shared-pool server=%v]: second message of A's connection: %v (%s)", server, err, id)}
+										}
+										n++
+										want1 := append(wtEncode(ma, 0), wtEncode(mb, 0)...)
+										want2 := wtEncode(mb, 0)
+										if prop == "C14" {
+											if !bytes.Equal(st1.out, want1) || !bytes.Equal(st2.out, want2) {
+												d1, d2 := wtDecode(st1.out), wtDecode(st2.out)
+												return []string{fmt.Sprintf("wire-format[shared-pool server=%v]: connection 1 emitted %s tail=%s (expected %s), connection 2 emitted %s tail=%s (expected %s) (%s)", server, fmtWtMsgs(d1.Msgs), d1.Tail, fmtWtMsgs([]wtMsg{ma, mb}), fmtWtMsgs(d2.Msgs), d2.Tail, fmtWtMsgs([]wtMsg{mb}), id)}
+											}
+											return nil
+										}
+										g1, e1, _, _ := wtReadAll(st1.out, wtReadMode{api: "ReadMessage"}, 0)
+										g2, e2, _, _ := wtReadAll(st2.out, wtReadMode{api: "ReadMessage"}, 0)
+										if !wtMsgsEqual(g1, []wtMsg{ma, mb}) || !wtMsgsEqual(g2, []wtMsg{mb}) {
+											return []string{fmt.Sprintf("round-trip[shared-pool server=%v]: peer of connection 1 read %s then %v (written %s), peer of connection 2 read %s then %v (written %s) (%s)", server, fmtWtMsgs(g1), e1, fmtWtMsgs([]wtMsg{ma, mb}), fmtWtMsgs(g2), e2, fmtWtMsgs([]wtMsg{mb}), id)}
+										}
+										return nil
+									})
+								}
+							}
+						}
+					}
+				}
+			}
+			c.Res.Distinct = distinct
+			c.Res.States += distinct
+			c.Res.Transitions += n
+			c.Note("two connections on one buffer pool: connection 2 writes a whole message while connection 1's stream is still inside Write (its bytes are consumed when the call completes); 7 boundary lengths squared x write paths x server/client x write buffer {default,16}")
+		})
+	}
+	// a stream write that fails (after accepting none / some of the bytes) ends the frame sequence: every later
+	// write on the connection, whatever the path, must fail and put nothing on the stream
+	register("C14", "write-fault", false, func(c *Ctx) {
+		var distinct, n int64
+		paths := []wtPath{{api: "WriteMessage"}, {api: "Write"}, {api: "Write", chunk: 7}, {api: "ReadFrom"}, {api: "WriteString"}, {api: "Prepared"}}
+		for _, server := range []bool{true, false} {
+			for _, wb := range []int{0, 16} {
+				w := wb
+				if w == 0 {
+					w = 4096
+				}
+				for _, ln := range []int{0, 5, 126, w + 10, 2*(w+9) + 1} {
+					for _, p1 := range paths {
+						for _, p2 := range paths {
+							for _, partial := range []int{0, 1, 3, 1 << 30} {
+								for failCall := 0; failCall < 3; failCall++ {
+									id := fmt.Sprintf("write fault server=%v wb=%d len=%d first=%s then=%s stream-write#%d accepts %d bytes", server, wb, ln, p1, p2, failCall, partial)
+									distinct++
+									c.Case(id, func() []string {
+										st := newFakeStream(nil)
+										st.wrFail, st.wrPartial = failCall, partial
+										conn := wt.NewConn(nil, st, server, 0, wb, nil, nil, nil)
+										m := wtMsg{false, wtPayload(ln, false)}
+										var firstErr error
+										for i := 0; i < 3 && firstErr == nil; i++ {
+											firstErr = wtWrite(conn, p1, m)
+										}
+										if firstErr == nil {
+											return nil // the fault was never reached (fewer stream writes than failCall)
+										}
+										n++
+										before := len(st.out)
+										cls := fmt.Sprintf("[then=%s server=%v]", p2.api, server)
+										var fails []string
+										for i := 0; i < 2; i++ {
+											err := wtWrite(conn, p2, wtMsg{true, wtPayload(7, true)})
+											if err == nil {
+												fails = append(fails, fmt.Sprintf("write-after-fault-accepted%s: write #%d after the failed stream write (%v) reported success (%s)", cls, i+1, firstErr, id))
+												break
+											}
+										}
+										if len(st.out) != before {
+											fails = append(fails, fmt.Sprintf("bytes-after-torn-frame%s: %d more bytes reached the stream after a stream write had failed (%v): the stream is no longer a sequence of frames (%s)", cls, len(st.out)-before, firstErr, id))
+										}
+										return fails
+									})
+								}
+							}
+						}
+					}
+				}
+			}
+		}
+		c.Res.Distinct = distinct
+		c.Res.States += distinct
+		c.Res.Transitions += n
+		c.Note("a stream write failing at call index 0..2 after accepting {0,1,3,all} bytes, under every first/second write path pair: later writes fail and add nothing to the stream")
+	})
 	// C14 decoder side: reference-encoded streams (incl. non-minimal length forms, zero-length payloads)
 	register("C14", "decode-reference-streams", false, func(c *Ctx) {
 		lens := []int{0, 1, 2, 125, 126, 127, 128, 255, 256, 4095, 4096, 4097, 65535, 65536, 65537}
